@@ -180,7 +180,7 @@ def ensure_facts(root=None, config='default', cargo_args=None, quiet=False):
         lock.close()
 
 
-def _gc(keep, maxn=6):
+def _gc(keep, maxn=30):
     base = os.path.join(CACHE, 'facts')
     ds = sorted((os.path.getmtime(os.path.join(base, d)), d) for d in os.listdir(base))
     for _, d in ds[:-maxn]:
